@@ -67,8 +67,9 @@ class Context(object):
             status, sense, fill = DEVICE(task.cdb, data_out, data_in)
         else:
             status, sense, fill = SCRIPT.pop(0) if SCRIPT else (0, None, None)
-        if fill is not None:
-            n = min(len(fill), len(data_in))
+        if fill is not None and task.dir == SCSI_XFER_READ:
+            # data-in is only received for direction READ, and no more than the expected transfer length
+            n = min(len(fill), len(data_in), task.xferlen)
             data_in[0:n] = fill[0:n]
         task.status = status
         if sense is not None:
